@@ -28,6 +28,12 @@ def check(run):
     st = run.explore('T3 (short/long forms, optional nodes, standard commands): every message of 1..%d units from a library of 31 absolute / relative / common headers + relative probe message (concrete bytes)' % (3 if thorough else 2),
                      TP + ({'k': 3 if thorough else 2},), 1800)
     records.extend(st['records'])
+    # the same rule when the messages arrive through process: the path survives a read only inside a message that is continued
+    # (payload newline), and every terminator resets it -- streams of 1..2 library messages, the second one often relative
+    LIB = ('mirsym.checks.process_level', 'LibraryProcess')
+    st = run.explore('through process::<16>: streams of 1..2 library messages (relative / absolute / continued after a payload newline), whole, byte-wise, every one and two cut positions: handlers as resolved message by message',
+                     LIB + ({'k': 2, 'N': 16, 'max_len': 16},), 1200)
+    records.extend(st['records'])
     viol = {}
     n_calls = 0
     for r in records:
@@ -42,8 +48,8 @@ def check(run):
     if n_calls == 0:
         raise Inconclusive('no leaf invoked a handler')
     cov['bounds'] = {'device': 'T1 (same mnemonic at several levels: C, A:C, A:X:C; X, A:X)', 'units_per_message': 3, 'mnemonics_per_header': 3 if thorough else 2,
-                     'messages_per_buffer': '2 (3 with an empty message in thorough)', 'entry': 'Interface::run, one buffer',
-                     'outside': 'longer messages, other trees, white space variants (C11), arguments (C03); through process the statement follows from C07'}
+                     'messages_per_buffer': '2 (3 with an empty message in thorough)', 'entry': 'Interface::run, one buffer; Interface::process::<16> on library streams',
+                     'outside': 'longer messages, other trees, white space variants (C11), arguments (C03)'}
     run.evidence['assumptions'] = ['reference resolver: SCPI-99 6.2.4 path rules written from the property statement (mirsym/oracle.py ref_message)',
                                    'reference tree expanded from the declaration strings independently of the macro',
                                    'handlers are recording stubs returning Ok']
@@ -55,6 +61,9 @@ def check(run):
 
 
 def confirm(run, v):
+    if v['rule'] == 'LIBRARY':
+        from ..checks.process_level import confirm_library
+        return confirm_library(run, v)
     if v['rule'] == 'TPATH':
         return confirm_tpath(run, v)
     return run_cases_confirm(run, v)
